@@ -57,7 +57,8 @@ def build():
     fcntl.flock(lock, fcntl.LOCK_EX)
     try:
         env = dict(os.environ, PYTHONPATH="")
-        for gen, out in (("gen_consts.py", "Consts.v"), ("gen_callgraph.py", "CallGraph.v"), ("gen_helpers.py", "GenHelpers.v")):
+        for gen, out in (("gen_consts.py", "Consts.v"), ("gen_callgraph.py", "CallGraph.v"), ("gen_helpers.py", "GenHelpers.v"),
+                         ("gen_helpers2.py", "GenHelpers2.v")):
             g = os.path.join(HERE, gen)
             if not os.path.exists(g):
                 continue
@@ -209,8 +210,10 @@ def main(argv):
     propfile = "theories/Props/%s.v" % prop
     propfiles = [propfile] if os.path.exists(os.path.join(COQ, propfile)) else []
     # further theorem files of the same property (Props/<id>b.v ...)
+    registered = set(open(os.path.join(COQ, "_CoqProject")).read().split())
     for extra in sorted(glob.glob(os.path.join(COQ, "theories", "Props", prop + "?.v"))):
-        propfiles.append("theories/Props/" + os.path.basename(extra))
+        if "theories/Props/" + os.path.basename(extra) in registered:       # files not in the project are not built by make
+            propfiles.append("theories/Props/" + os.path.basename(extra))
     files = []
     for pf in propfiles:
         cone(pf, files)
